@@ -370,7 +370,8 @@ let do_hist id kind trusted reg_text ops_text obs =
                        "err." ^ eclass_name (wfail_class { w_open_err = false; w_cap = None; w_sched = sc; w_commit_err = false } chunks)
                      | None -> st_)
                   | _ -> st_) in
-              if st_ <> want then add_fail fails "storage_write_error_replaced"
+              if (st_ = "err.io" || st_ = "err.shortwrite") && st_ <> want
+              then add_fail fails "storage_write_error_replaced"
             end
           end
           else begin
@@ -381,7 +382,8 @@ let do_hist id kind trusted reg_text ops_text obs =
                 | st :: _ -> st <> (if Hashtbl.mem must_marks i then "panic" else "err.setup") | [] -> true)
             then add_fail fails "store_without_encoder";
             let cv = string_of_dm (canon ch v) in
-            let key = ptext ^ "|" ^ cv in
+            (* inputs are compared per link system: a P op goes through another registry *)
+            let key = (if Hashtbl.mem pre_marks i then "P|" else "") ^ ptext ^ "|" ^ cv in
             (* store = compute = the same for every re-creation of the value, whatever came before;
                a Must* call returns what the plain call returns and panics exactly when that errs *)
             let is_must = Hashtbl.mem must_marks i in
